@@ -75,6 +75,9 @@ class C18(Check):
             for a_kind in range(4):
                 for two in (False, True):
                     out.append({"part": "redraw", "term": term_name, "prev": a_kind, "views": 2, "two": two, "full_pool": tier != "quick"})
+        # kitty support forced by the user on a terminal where detection fails
+        for a_kind in ((1, 2) if tier == "quick" else range(4)):
+            out.append({"part": "redraw", "term": "kitty", "prev": a_kind, "views": 2, "two": True, "full_pool": tier != "quick", "forced_only": True})
         return out
 
     def setup(self, shape, concrete):
@@ -134,8 +137,14 @@ class C18(Check):
                 s_.items.append(x)
 
         W._ti_free_z_indexes = Free([f] if use_free else [])
+        # the widget asking for an index may be of any class of a hierarchy below UrwidImage (the library calls
+        # self._ti_get_z_index()); the allocator state is one, shared by all of them
+        Sub = type("SubImage", (W,), {})
+        pool = [W, Sub, type("SubSubImage", (Sub,), {})]
+        c1 = pool[eng.choice("class_of_the_first_widget", 3)]
+        c2 = pool[eng.choice("class_of_the_second_widget", 3)]
         try:
-            z = W._ti_get_z_index()
+            z = c1._ti_get_z_index()
             err = False
         except U.UrwidImageError:
             z, err = None, True
@@ -150,6 +159,12 @@ class C18(Check):
                 live = eng.int("some_live_index")
                 eng.assume(sym_and(live != 0, precedes(live, n)))
                 eng.claim("allocator: the new index differs from every index handed out before", z != live)
+                if bool(n != core.sym_if(n > 0, -n, -n + 1)) and bool(W._ti_next_z_index != 2**31):
+                    try:
+                        z2 = c2._ti_get_z_index()
+                    except U.UrwidImageError:
+                        z2 = None
+                    eng.claim("allocator: two live widgets of any classes of the hierarchy get different indexes", z2 is not None and sym_and(z2 != z, z2 != live))
         # releasing on garbage collection
         W._ti_free_z_indexes = set()
         img = self.classes["kitty"](self.PIL.new("RGB", (1, 1)))
@@ -211,15 +226,18 @@ class C18(Check):
         urwid.raw_display.Screen.clear = lambda self_: out.write("<CLEAR>")
         urwid.raw_display.Screen._start = lambda self_, *a, **k: out.write("<START>")
         urwid.raw_display.Screen._stop = lambda self_: out.write("<STOP>")
-        supported = bool(eng.bool("kitty_protocol_supported"))
-        self.classes["kitty"]._supported = supported
-        self.classes["kitty"].forced_support = False
+        # kitty graphics in use: not at all / detected on the terminal / forced by the user on a terminal where detection fails
+        how = eng.choice("kitty_support", 3)
+        supported = how != 0
+        self.classes["kitty"]._supported = how == 1
+        self.classes["kitty"].forced_support = how == 2
         try:
             screen._start()
             screen.clear()
             screen._stop()
         finally:
             self.classes["kitty"]._supported = True
+            self.classes["kitty"].forced_support = False
         eng.reachable()
         text = out.text()
         d = ctl.KITTY_DELETE_ALL
@@ -305,7 +323,10 @@ class C18(Check):
         U.get_terminal_name_version = lambda: ("konsole" if konsole else "kitty", "23.0")
         urwid.raw_display.Screen.draw_screen = lambda self_, maxres, canvas: self_._term_output_file.write("<BASE>")
         urwid.raw_display.Screen.flush = lambda self_: None
-        self.classes["kitty"]._supported = True
+        # (support detected, or only forced by the user)
+        forced_only = bool(shape.get("forced_only"))
+        self.classes["kitty"]._supported = not forced_only
+        self.classes["kitty"].forced_support = forced_only
         screen._ti_image_cviews = frozenset()
         screen._ti_screen_canv = None
         out.items.clear()
